@@ -77,10 +77,12 @@ def run(c):
             dict(name="replay_capi", sources=srcs, flags=flags, guard=False),
             dict(name="replay_capi_asan", sources=srcs, flags=flags + ["-DC20_EXACT"], san="address", guard=False)])
 
-    def models():
+    def export(runs):
         seqs = []
-        for label, consts in (THOROUGH if th else QUICK):
-            res = c.tlc_model("CApiModel", constants=consts, workers=6, coverage=False, timeout=1500)
+        for label, consts in runs:
+            # action coverage (vacuity) only where every action can fire: with the prelude both
+            # parameter lists exist already, so params_create is never taken by construction
+            res = c.tlc_model("CApiModel", constants=consts, workers=6, coverage=(consts["Prelude"] == "FALSE"), timeout=1500)
             if res["violated"]:
                 # model-level only: the design as transcribed; never a verdict by itself
                 c.drift("CApiModel[%s] violates %s (transcription to be corrected)" % (label, res["violated"]))
@@ -89,125 +91,133 @@ def run(c):
                 raise vcheck.InfraError("CApiModel[%s] exported no history" % label)
             c.note("model run %s: %d maximal histories" % (label, len(got)))
             seqs += got
-        box["seqs"] = seqs
+        return seqs
+
+    def models():
+        box["seqs"] = export(THOROUGH if th else QUICK)
+        if th:
+            box["quick"] = export(QUICK)
 
     c.parallel([builds, models])
-    seqs = box["seqs"]
     normal, asan = box["bins"]
-    nseq = len(seqs)
-    c.log("%d call sequences exported by TLC" % nseq)
+    sem = threading.Semaphore(NPARTS)      # <= 6 trace JVMs at a time; the ASan replays (no JVM) run beside them
 
-    # ---- split at sequence boundaries
-    nparts = NPARTS if not th else 4 * NPARTS
-    parts = []
-    for k in range(nparts):
-        chunk = [(i + 1, s) for i, s in enumerate(seqs) if i % nparts == k]     # round robin: balanced parts
-        if not chunk:
-            continue
-        p = c.path("seqs-%d.txt" % k)
-        with open(p, "w") as f:
-            for sid, s in chunk:
-                f.write(seq_line(sid, s) + "\n")
-        jd = c.path("json-%d" % k)
-        os.makedirs(jd, exist_ok=True)
-        os.makedirs(jd + "a", exist_ok=True)
-        parts.append((k, p, jd, len(chunk)))
+    def replay_all(seqs, seed, tag, with_asan, nparts):
+        """Replay `seqs` (split round robin into nparts files = processes = trace files) with matrices
+        of VERIF_SEED=seed; returns the number of sequences after judging everything."""
+        nseq = len(seqs)
+        c.log("[%s] %d call sequences, seed %d" % (tag, nseq, seed))
+        parts = []
+        for k in range(nparts):
+            chunk = [(i + 1, s) for i, s in enumerate(seqs) if i % nparts == k]     # balanced parts
+            if not chunk:
+                continue
+            p = c.path("seqs-%s-%d.txt" % (tag, k))
+            with open(p, "w") as f:
+                for sid, s in chunk:
+                    f.write(seq_line(sid, s) + "\n")
+            jd = c.path("json-%s-%d" % (tag, k))
+            os.makedirs(jd, exist_ok=True)
+            os.makedirs(jd + "a", exist_ok=True)
+            parts.append((k, p, jd, len(chunk)))
 
-    def normal_part(part):
-        k, p, jd, n = part
-        t = c.record(normal, [p, jd], out=c.path("capi-%d.ndjson" % k), timeout=1200,
-                     sig={"stage": "replay", "clause": "crash"})
-        res = c.tlc_trace("C20Trace", t, label="replay part %d (%d sequences)" % (k, n), timeout=1500, heap="6g")
-        return res
+        def normal_part(part):
+            k, p, jd, n = part
+            with sem:
+                t = c.record(normal, [p, jd], out=c.path("capi-%s-%d.ndjson" % (tag, k)), timeout=1200,
+                             env={"VERIF_SEED": seed}, sig={"stage": "replay", "clause": "crash"})
+                return c.tlc_trace("C20Trace", t, label="%s part %d (%d sequences, seed %d)" % (tag, k, n, seed),
+                                   timeout=1500, heap="6g")
 
-    def asan_part(part):
-        k, p, jd, n = part
-        out = c.path("capi-asan-%d.ndjson" % k)
-        env = {"VERIF_SEED": c.seed, "VERIF_TIER": c.tier, "OMP_NUM_THREADS": 1,
-               "ASAN_OPTIONS": "exitcode=%d:detect_leaks=1:abort_on_error=0:allocator_may_return_null=1" % ASAN_RC}
-        rc, so, err = c.sh([asan, p, jd + "a"], env=env, timeout=2400, stdout=out)
-        c.log("ASan replay part %d (%d sequences): rc=%s" % (k, n, rc))
-        return (k, n, rc, err, out)
+        def asan_part(part):
+            k, p, jd, n = part
+            out = c.path("capi-asan-%s-%d.ndjson" % (tag, k))
+            env = {"VERIF_SEED": seed, "VERIF_TIER": c.tier, "OMP_NUM_THREADS": 1,
+                   "ASAN_OPTIONS": "exitcode=%d:detect_leaks=1:abort_on_error=0:allocator_may_return_null=1" % ASAN_RC}
+            rc, so, err = c.sh([asan, p, jd + "a"], env=env, timeout=2400, stdout=out)
+            c.log("ASan replay %s part %d (%d sequences): rc=%s" % (tag, k, n, rc))
+            return (k, n, rc, err, out)
 
-    # <= 6 trace JVMs at a time; the ASan replays (no JVM) run beside them
-    sem = threading.Semaphore(NPARTS)
+        thunks = [(lambda q=q: normal_part(q)) for q in parts]
+        if with_asan:
+            thunks += [(lambda q=q: asan_part(q)) for q in parts]
+        results = c.parallel(thunks, max_workers=2 * NPARTS + 2)
+        traces, asans = results[:len(parts)], results[len(parts):]
 
-    def gated(part):
-        with sem:
-            return normal_part(part)
-    results = c.parallel([(lambda q=q: gated(q)) for q in parts] + [(lambda q=q: asan_part(q)) for q in parts],
-                         max_workers=2 * NPARTS + 2)
-    traces, asans = results[:len(parts)], results[len(parts):]
+        # ---- judge the traces
+        begins = ends = creates = 0
+        for res in traces:
+            for ln in res["lines"]:
+                if ln.startswith('{"e":"Begin"'):
+                    begins += 1
+                elif ln.startswith('{"e":"End"'):
+                    ends += json.loads(ln)["nseq"]
+                elif ln.startswith('{"e":"Obs"') and "obs" not in box:
+                    r = box["obs"] = json.loads(ln)
+                    c.note("amgcl_params_setf on %d general floats: %d read back as the same float (judged), %d as the same double "
+                           "(not judged; e.g. 1e-6f is stored as '%s')" % (r["n"], r["f32same"], r["f64same"], r.get("text1", "")))
+                elif '"c":[' in ln or '"lv":' in ln:
+                    r = json.loads(ln)
+                    if "lv" in r:
+                        creates += 1
+                        if r["lv"] >= 2 and r["shprm"]:
+                            c.nontrivial.add(("create", r["f"], r["m"], json.dumps(r["shprm"], sort_keys=True), r["lv"]))
+                    elif r["f"] in ("solver_solve_mtx", "solver_solve_mtx_f") or r["c"][2] > 1 or r["f"] == "precond_apply":
+                        c.nontrivial.add((r["f"], r["m2"], tuple(r["c"])))
+            for ln in res["lines"][1:200000:20011]:
+                c.sample(ln, limit=8)
+            c.judge(res, "C API call differs from the C++ run-time interface / parameter did not arrive", sigfn=sigfn, stage="replay")
+        crashed = any(v[2].get("clause") == "crash" for v in c.violations) or any(
+            h[1].get("match", {}).get("clause") == "crash" for h in c.known_hits.values())
+        if not crashed and (begins != nseq or ends != nseq):
+            raise vcheck.InfraError("[%s] replayed %d sequences (End events: %d) but TLC exported %d" % (tag, begins, ends, nseq))
+        c.note("[%s, seed %d] %d sequences replayed, %d exported by TLC; %d create calls" % (tag, seed, begins, nseq, creates))
 
-    # ---- judge the traces
-    begins = ends = 0
-    creates = 0
-    for res in traces:
-        for ln in res["lines"]:
-            if ln.startswith('{"e":"Begin"'):
-                begins += 1
-            elif ln.startswith('{"e":"End"'):
-                ends += json.loads(ln)["nseq"]
-            elif ln.startswith('{"e":"Obs"') and "obs" not in box:
-                r = box["obs"] = json.loads(ln)
-                c.note("amgcl_params_setf on %d general floats: %d read back as the same float (judged), %d as the same double "
-                       "(not judged; e.g. 1e-6f is stored as '%s')" % (r["n"], r["f32same"], r["f64same"], r.get("text1", "")))
-            elif '"c":[' in ln or '"lv":' in ln:
-                r = json.loads(ln)
-                if "lv" in r:
-                    creates += 1
-                    if r["lv"] >= 2 and r["shprm"]:
-                        c.nontrivial.add(("create", r["f"], r["m"], json.dumps(r["shprm"], sort_keys=True), r["lv"]))
-                elif r["f"] in ("solver_solve_mtx", "solver_solve_mtx_f") or r["c"][2] > 1 or r["f"] == "precond_apply":
-                    c.nontrivial.add((r["f"], r["m2"], tuple(r["c"])))
-        for ln in res["lines"][1:200000:20011]:
-            c.sample(ln, limit=8)
-        c.judge(res, "C API call differs from the C++ run-time interface / parameter did not arrive", sigfn=sigfn, stage="replay")
-    crashed = any(v[2].get("clause") == "crash" for v in c.violations) or any(
-        h[1].get("match", {}).get("clause") == "crash" for h in c.known_hits.values())
-    if not crashed and (begins != nseq or ends != nseq):
-        raise vcheck.InfraError("replayed %d sequences (End events: %d) but TLC exported %d" % (begins, ends, nseq))
-    c.note("%d sequences replayed, %d exported by TLC; %d create calls" % (begins, nseq, creates))
-
-    # ---- judge the AddressSanitizer replays
-    adone = 0
-    for k, n, rc, err, out in asans:
-        last = ""
-        try:
-            ls = open(out).read().splitlines()
-            last = ls[-1] if ls else ""
+        # ---- judge the AddressSanitizer replays
+        adone = 0
+        for k, n, rc, err, out in asans:
+            last = ""
+            try:
+                ls = open(out).read().splitlines()
+                last = ls[-1] if ls else ""
+                if rc == 0:
+                    adone += json.loads(last).get("nseq", 0) if last.startswith('{"e":"End"') else 0
+            except OSError:
+                pass
             if rc == 0:
-                adone += json.loads(last).get("nseq", 0) if last.startswith('{"e":"End"') else 0
-        except OSError:
-            pass
-        if rc == 0:
-            continue
-        if rc == 124:
-            raise vcheck.InfraError("ASan replay timeout (part %d)" % k)
-        m = re.search(r"ERROR: (AddressSanitizer|LeakSanitizer): ([^\n]*)", err)
-        kind = (m.group(2).split(" on ")[0].strip() if m else "crash rc=%s" % rc)
-        acc = re.search(r"^(READ|WRITE) of size \d+", err, re.M)
-        cur = re.search(r"C20-CURRENT-CALL seq=(\d+) step=(\d+) f=(\S+)", err)
-        try:
-            lastrec = json.loads(last)
-        except Exception:
-            lastrec = {"raw": last[:500]}
-        if rc == ASAN_RC or rc < 0 or rc in (3, 134, 136, 139):
-            leak = "leak" in kind.lower()
-            sig = {"stage": "asan", "clause": "create-destroy-matched" if leak else "no-out-of-bounds",
-                   "kind": kind, "access": acc.group(1) if acc else "", "call": cur.group(3) if cur else ""}
-            what = ("memory leaked although every created handle was destroyed (%s)" % kind) if leak else \
-                   ("memory error on a valid call sequence with exact-size arrays: %s %s" % (kind, acc.group(0) if acc else ""))
-            if cur:
-                what += " in %s" % cur.group(3)
-            c.violation(what, {"part": k, "rc": rc, "call_in_progress": cur.group(0) if cur else None,
-                               "last_completed_event": lastrec, "asan_report": err[:6000],
-                               "cmd": [asan, "seqs-%d.txt" % k]}, sig)
-        else:
-            raise vcheck.InfraError("ASan replay rc=%s\n%s" % (rc, err[-3000:]))
-    if not any(rc != 0 for _, _, rc, _, _ in asans):
-        if adone != nseq:
-            raise vcheck.InfraError("ASan replay finished %d of %d sequences" % (adone, nseq))
-        c.note("AddressSanitizer+LeakSanitizer replay of all %d sequences on exact-size arrays: clean" % nseq)
-        c.evaluations += nseq
+                continue
+            if rc == 124:
+                raise vcheck.InfraError("ASan replay timeout (part %d)" % k)
+            m = re.search(r"ERROR: (AddressSanitizer|LeakSanitizer): ([^\n]*)", err)
+            kind = (m.group(2).split(" on ")[0].strip() if m else "crash rc=%s" % rc)
+            acc = re.search(r"^(READ|WRITE) of size \d+", err, re.M)
+            cur = re.search(r"C20-CURRENT-CALL seq=(\d+) step=(\d+) f=(\S+)", err)
+            try:
+                lastrec = json.loads(last)
+            except Exception:
+                lastrec = {"raw": last[:500]}
+            if rc == ASAN_RC or rc < 0 or rc in (3, 134, 136, 139):
+                leak = "leak" in kind.lower()
+                sig = {"stage": "asan", "clause": "create-destroy-matched" if leak else "no-out-of-bounds",
+                       "kind": kind, "access": acc.group(1) if acc else "", "call": cur.group(3) if cur else ""}
+                what = ("memory leaked although every created handle was destroyed (%s)" % kind) if leak else \
+                       ("memory error on a valid call sequence with exact-size arrays: %s %s" % (kind, acc.group(0) if acc else ""))
+                if cur:
+                    what += " in %s" % cur.group(3)
+                c.violation(what, {"part": k, "rc": rc, "seed": seed, "call_in_progress": cur.group(0) if cur else None,
+                                   "last_completed_event": lastrec, "asan_report": err[:6000],
+                                   "cmd": [asan, "seqs-%s-%d.txt" % (tag, k)]}, sig)
+            else:
+                raise vcheck.InfraError("ASan replay rc=%s\n%s" % (rc, err[-3000:]))
+        if with_asan and not any(rc != 0 for _, _, rc, _, _ in asans):
+            if adone != nseq:
+                raise vcheck.InfraError("ASan replay finished %d of %d sequences" % (adone, nseq))
+            c.note("[%s] AddressSanitizer+LeakSanitizer replay of all %d sequences on exact-size arrays: clean" % (tag, nseq))
+            c.evaluations += nseq
+
+    replay_all(box["seqs"], c.seed, "main", True, NPARTS if not th else 8 * NPARTS)
+    if th:
+        # more seeds: other matrix sizes (6x6..8x8 by seed % 3) and the non-symmetric variant (odd seeds)
+        for ds in (1, 2):
+            replay_all(box["quick"], c.seed + ds, "seed+%d" % ds, ds == 1, NPARTS)
     c.exhaustive = True
